@@ -1,7 +1,192 @@
 import ASV.Drv.J
+import ASV.Spec.Serial
 namespace ASV.Drv.C10
-open Lean ASV ASV.Drv
+open Lean ASV ASV.Drv ASV.Serial
 
-def handle (_j : Json) : R Json := throw "C10: no model yet"
+/-! JSON <-> model state -/
+
+def qualsOfJson (j : Json) : R Quals :=
+  listOf (fun e => do return ((← asStr (← idx e 0)), (← listOf asStr (← idx e 1)))) j
+def qualsToJson (q : Quals) : Json := jArr (q.map fun e => jArr [Json.str e.1, jStrs e.2])
+
+def optOf {α} (f : Json → R α) (j : Json) (k : String) : R (Option α) :=
+  match j.getObjVal? k with
+  | .ok .null => pure none
+  | .ok v => do return some (← f v)
+  | .error _ => pure none
+def optToJson {α} (f : α → Json) : Option α → Json
+  | some v => f v
+  | none => Json.null
+
+def featOfJson (j : Json) : R Feat := do
+  return ⟨← locOfJson (← fld j "loc"), ← strF j "type", ← listOf asStr (← fld j "notes"),
+          ← qualsOfJson (← fld j "quals"), ← boolF j "byAS", ← optOf asInt j "codon"⟩
+def featToJson (f : Feat) : Json :=
+  jObj [("loc", locToJson f.loc), ("type", Json.str f.type), ("notes", jStrs f.notes),
+        ("quals", qualsToJson f.quals), ("byAS", toJson f.byAS), ("codon", optToJson (fun (i : Int) => toJson i) f.codon)]
+
+def bioOfJson (j : Json) : R Bio := do
+  return ⟨← locOfJson (← fld j "loc"), ← strF j "type", ← qualsOfJson (← fld j "quals")⟩
+def bioToJson (b : Bio) : Json :=
+  jObj [("loc", locToJson b.loc), ("ls", Json.str (featureToJson b).location), ("type", Json.str b.type),
+        ("quals", qualsToJson b.quals)]
+
+def protoOfJson (j : Json) : R Proto := do
+  return ⟨← featOfJson (← fld j "feat"), ← locOfJson (← fld j "core"), ← strF j "tool", ← strF j "product",
+          ← intF j "cutoff", ← intF j "nbhd", ← strF j "rule", ← strF j "category", ← optOf qualsOfJson j "side"⟩
+def protoToJson (p : Proto) : Json :=
+  jObj [("feat", featToJson p.feat), ("core", locToJson p.core), ("tool", Json.str p.tool),
+        ("product", Json.str p.product), ("cutoff", toJson p.cutoff), ("nbhd", toJson p.nbhd),
+        ("rule", Json.str p.rule), ("category", Json.str p.category), ("side", optToJson qualsToJson p.side)]
+
+def subOfJson (j : Json) : R Sub := do
+  return ⟨← featOfJson (← fld j "feat"), ← strF j "tool", ← strF j "label", ← optOf qualsOfJson j "side"⟩
+def subToJson (s : Sub) : Json :=
+  jObj [("feat", featToJson s.feat), ("tool", Json.str s.tool), ("label", Json.str s.label),
+        ("side", optToJson qualsToJson s.side)]
+
+def candOfJson (j : Json) : R Cand := do
+  return ⟨← featOfJson (← fld j "feat"), ← strF j "kind", ← listOf asNat (← fld j "children"),
+          ← optOf asStr j "smiles", ← optOf asStr j "polymer", ← optOf asInt j "wrap"⟩
+def candToJson (r : Rec) (c : Cand) : Json :=
+  jObj [("feat", featToJson c.feat), ("kind", Json.str c.kind), ("children", toJson c.children),
+        ("smiles", optToJson Json.str c.smiles), ("polymer", optToJson Json.str c.polymer),
+        ("wrap", optToJson (fun (i : Int) => toJson i) c.wrap),
+        ("coreloc", match c.coreLoc r with | .ok l => locToJson l | .error e => Json.str e)]
+
+def regOfJson (j : Json) : R Reg := do
+  return ⟨← featOfJson (← fld j "feat"), ← listOf asNat (← fld j "cands"), ← listOf asNat (← fld j "subs")⟩
+def regToJson (g : Reg) : Json :=
+  jObj [("feat", featToJson g.feat), ("cands", toJson g.cands), ("subs", toJson g.subs)]
+
+def recOfJson (j : Json) : R Rec := do
+  return { len := ← intF j "len", circular := ← boolF j "circ",
+           others := ← listOf featOfJson (← fld j "others"), cdss := ← listOf featOfJson (← fld j "cdss"),
+           subs := ← listOf subOfJson (← fld j "subs"), protos := ← listOf protoOfJson (← fld j "protos"),
+           cands := ← listOf candOfJson (← fld j "cands"), regs := ← listOf regOfJson (← fld j "regs") }
+def recToJson (r : Rec) : Json :=
+  jObj [("len", toJson r.len), ("circ", toJson r.circular), ("others", jArr (r.others.map featToJson)),
+        ("cdss", jArr (r.cdss.map featToJson)), ("subs", jArr (r.subs.map subToJson)),
+        ("protos", jArr (r.protos.map protoToJson)), ("cands", jArr (r.cands.map (candToJson r))),
+        ("regs", jArr (r.regs.map regToJson))]
+
+def eToJson {α} (f : α → Json) : E α → Json
+  | .ok v => jObj [("ok", f v)]
+  | .error e => jObj [("err", Json.str e)]
+
+def biosToJson (l : List Bio) : Json := jArr (l.map bioToJson)
+
+/-! scope: the hypotheses of the record-level theorems, evaluated on this record -/
+
+/-- the comparison used by `sorted(all_features)` is a strict weak order on this record's features
+    (asymmetric, and incomparability is transitive), checked on the precomputed comparison matrix -/
+def entDesc (r : Rec) (e : Ent) : String :=
+  s!"{entType r e} {locToString (entLoc r e)}"
+
+/-- first violation of the strict-weak-order laws, for diagnostics -/
+def swoWitness (r : Rec) : String :=
+  let es := allEntries r
+  match es.findSome? (fun a => es.findSome? fun b =>
+      if a != b && entLt r a b && entLt r b a then some s!"both {entDesc r a} < {entDesc r b} and back" else none) with
+  | some w => w
+  | none =>
+    match es.findSome? (fun a => es.findSome? fun b => es.findSome? fun c =>
+      if a != b && b != c && a != c && !entLt r a b && !entLt r b c && entLt r a c then
+        some s!"{entDesc r a} !< {entDesc r b} !< {entDesc r c} but first < third" else none) with
+    | some w => w
+    | none => ""
+
+def strictWeak (r : Rec) : Bool :=
+  let es := (allEntries r).toArray
+  let n := es.size
+  let m : Array Bool := Id.run do
+    let mut a := Array.mkEmpty (n * n)
+    for i in [0:n] do
+      for k in [0:n] do
+        a := a.push (entLt r es[i]! es[k]!)
+    return a
+  let lt (i k : Nat) : Bool := m[i * n + k]!
+  Id.run do
+    for i in [0:n] do
+      for k in [0:n] do
+        if i != k then
+          if lt i k && lt k i then return false
+          if !lt i k then
+            for l in [0:n] do
+              -- negative transitivity: not (i<k), not (k<l) → not (i<l)   (distinct features only:
+              -- a sort never compares a feature with itself)
+              if l != i && l != k then
+                if !lt k l && lt i l then return false
+    return true
+
+def areasSorted (r : Rec) : Bool :=
+  sortedBy (fun (a b : Proto) => areaLt a.feat.loc b.feat.loc) r.protos &&
+  sortedBy (fun (a b : Sub) => areaLt a.feat.loc b.feat.loc) r.subs &&
+  sortedBy (fun (a b : Cand) => areaLt a.feat.loc b.feat.loc) r.cands &&
+  sortedBy (fun (a b : Reg) => areaLt a.feat.loc b.feat.loc) r.regs &&
+  sortedBy featLt r.cdss
+
+def optRec (j : Json) (k : String) : R (Option Rec) := optOf recOfJson j k
+
+def handle (j : Json) : R Json := do
+  let f ← strF j "f"
+  match f with
+  | "record" =>
+    let r ← recOfJson (← fld j "rec")
+    let w1 := writeRecord r
+    let r1 : E Rec := do readRecord r.len r.circular (← w1)
+    let w2 : E (List Bio) := do writeRecord (← r1)
+    -- JSON path of the model: every feature through feature_to_json / feature_from_json
+    let rj : E Rec := do
+      let bs ← w1
+      match bs.mapM (fun b => featureFromJson (featureToJson b)) with
+      | some bs' => readRecord r.len r.circular bs'
+      | none => throw "value-error"
+    let spec (key : String) (textual : Bool) : R Json := do
+      match ← optRec j key with
+      | some r' => pure (toJson (sameRecord textual r r'))
+      | none => pure Json.null
+    let modelSame := match r1 with | .ok r' => sameRecord false r r' | .error _ => false
+    let fixed := match w1, w2 with | .ok a, .ok b => a == b | _, _ => false
+    return jObj [("w1", eToJson biosToJson w1), ("r1", eToJson recToJson r1), ("w2", eToJson biosToJson w2),
+                 ("rj_same", toJson (match r1, rj with | .ok a, .ok b => a == b | _, _ => false)),
+                 ("model_same", toJson modelSame), ("model_fixed", toJson fixed),
+                 ("spec_gb", ← spec "re_gb" true), ("spec_json", ← spec "re_json" false), ("spec_mem", ← spec "re_mem" false),
+                 ("cores", jArr (r.cands.map fun c => match c.coreLoc r with | .ok l => locToJson l | .error e => Json.str e)),
+                 ("refs_valid", toJson (refsValid r)), ("sorted", toJson (areasSorted r)),
+                 ("swo", toJson (strictWeak r)), ("nodup", toJson (decide (allEntries r).Nodup)),
+                 ("scope_wf", toJson (scopeButOrder r)),
+                 ("swo_witness", if boolFD j "debug" false then Json.str (swoWitness r) else Json.null)]
+  | "read" =>
+    -- `Record.from_biopython` on an arbitrary feature list
+    let bios ← listOf bioOfJson (← fld j "bios")
+    let r := readRecord (← intF j "len") (← boolF j "circ") bios
+    return jObj [("r1", eToJson recToJson r)]
+  | "feature" =>
+    -- one feature outside any record: to_biopython, from_biopython of the result, to_biopython again
+    let cls ← strF j "cls"
+    let x ← fld j "x"
+    match cls with
+    | "plain" =>
+      let ft ← featOfJson x
+      let b := ft.toBio
+      let back : E Feat := do Feat.fromBio (← b)
+      let again : E Bio := do (← back).toBio
+      return jObj [("bio", eToJson (fun b => biosToJson [b]) b), ("back", eToJson featToJson back),
+                   ("again", eToJson (fun b => biosToJson [b]) again)]
+    | "proto" =>
+      let p ← protoOfJson x
+      let b := p.toBio none false
+      let back : E Proto := do match ← b with | nb :: _ => Proto.fromBio nb | [] => throw "IndexError"
+      let again : E (List Bio) := do (← back).toBio none false
+      return jObj [("bio", eToJson biosToJson b), ("back", eToJson protoToJson back), ("again", eToJson biosToJson again)]
+    | "sub" =>
+      let s ← subOfJson x
+      let b := s.toBio none false
+      let back : E Sub := do match ← b with | nb :: _ => Sub.fromBio nb | [] => throw "IndexError"
+      let again : E (List Bio) := do (← back).toBio none false
+      return jObj [("bio", eToJson biosToJson b), ("back", eToJson subToJson back), ("again", eToJson biosToJson again)]
+    | _ => throw s!"C10: unknown class {cls}"
+  | _ => throw s!"C10: unknown op {f}"
 
 end ASV.Drv.C10
